@@ -22,3 +22,22 @@ Example cyclic_and_self_referencing_deltas_refused :
   resolve [EFull; EDelta 0; EDelta 2; EDelta 4; EDelta 3; EDelta 9] = Some None /\
   resolve [EFull; EDelta 0; EDelta 1; EDelta 1] = Some (Some [3; 2; 1; 0]).
 Proof. vm_compute. auto. Qed.
+
+(* reading one entry of an installed pack (Pack.resolve_object) walks down the
+   chain of bases at most [length es] times whatever the base pointers and the
+   index say: a chain that revisits an entry is refused instead of followed *)
+Theorem delta_read_terminates : forall es i, read_entry es i <> None.
+Proof. exact read_entry_total. Qed.
+Print Assumptions delta_read_terminates.
+
+(* and it yields the object exactly when the chain of bases ends in a full object *)
+Theorem delta_read_exact : forall es i,
+  (exists d, read_entry es i = Some (Some d)) <-> exists k, reaches es k i = true.
+Proof. exact read_entry_exact. Qed.
+Print Assumptions delta_read_exact.
+
+Example cyclic_chain_is_refused_on_read :
+  read_entry [EDelta 1; EDelta 0; EFull; EDelta 2; EDelta 3; EDelta 7] 0 = Some None /\
+  read_entry [EDelta 1; EDelta 0; EFull; EDelta 2; EDelta 3; EDelta 7] 4 = Some (Some 2) /\
+  read_entry [EDelta 1; EDelta 0; EFull; EDelta 2; EDelta 3; EDelta 7] 5 = Some None.
+Proof. vm_compute. auto. Qed.
